@@ -332,15 +332,28 @@ func ruleStaleGC(w *core.World, r *core.Report) {
 	}
 	// the live-id set is filled from both ids of every source
 	fills := 0
-	for _, s := range core.SitesNamed(f, false, "pkg/redis.GetRunIds") {
-		for _, in := range core.Instrs(f) {
-			mu, ok := in.(*ssa.MapUpdate)
-			if !ok {
+	for _, g := range reachableFuncs(f) {
+		for _, s := range core.SitesNamed(g, false, "pkg/redis.GetRunIds") {
+			if s.Instr.Parent() != g {
 				continue
 			}
-			if e, ok := mu.Key.(*ssa.Extract); ok && e.Tuple == s.Value() && e.Index <= 1 {
-				fills++
+			got := map[int]bool{}
+			for _, h := range reachableFuncs(f) {
+				for _, in := range core.OwnInstrs(h) {
+					mu, ok := in.(*ssa.MapUpdate)
+					if !ok {
+						continue
+					}
+					// the key is one of the two ids the call returned (handed on through helpers' results)
+					core.Walk(mu.Key, func(x ssa.Value) bool {
+						if e, ok := x.(*ssa.Extract); ok && e.Tuple == s.Value() && e.Index <= 1 {
+							got[e.Index] = true
+						}
+						return true
+					})
+				}
 			}
+			fills += len(got)
 		}
 	}
 	r.Check(fills >= 2, "gcStaleCheckpoint/live-ids", f.Pos(), "both replication ids of every source must enter the live set (found %d insertions)", fills)
@@ -797,6 +810,10 @@ func slotListCoverage(f *ssa.Function, n int64) (int, string) {
 					}
 					from, bound, ok := indexRange(core.Unwrap(elems[0]))
 					if !ok {
+						// bounded by the list's own length: for c := 0; len(list) < K; c++ { list = append(list, c) }
+						from, bound, ok = lengthBoundedFill(ph, app, elems[0])
+					}
+					if !ok {
 						return -1, "loop not recognised"
 					}
 					k, isK := core.ConstInt(bound)
@@ -812,6 +829,58 @@ func slotListCoverage(f *ssa.Function, n int64) (int, string) {
 		}
 	}
 	return verdict, why
+}
+
+// lengthBoundedFill: the list phi grows by exactly one element per iteration (its only back edge is app), the
+// loop runs while len(list) < bound, and the element is a counter that starts at a constant and advances by
+// one on every back edge: the list holds from, from+1, … from+bound-1.
+func lengthBoundedFill(list *ssa.Phi, app *ssa.Call, elem ssa.Value) (from int64, bound ssa.Value, ok bool) {
+	head := list.Block()
+	for i, e := range list.Edges {
+		if head.Dominates(head.Preds[i]) && e != ssa.Value(app) {
+			return 0, nil, false
+		}
+	}
+	e := core.Unwrap(elem)
+	if cv, isCv := e.(*ssa.Convert); isCv {
+		e = core.Unwrap(cv.X)
+	}
+	ctr, isPhi := e.(*ssa.Phi)
+	if !isPhi || ctr.Block() != head {
+		return 0, nil, false
+	}
+	haveInit := false
+	for i, ce := range ctr.Edges {
+		if head.Dominates(head.Preds[i]) {
+			b, isB := ce.(*ssa.BinOp)
+			if !isB || b.Op != token.ADD || b.X != ssa.Value(ctr) || !isConstInt(1)(b.Y) {
+				return 0, nil, false
+			}
+			continue
+		}
+		k, isK := core.ConstInt(ce)
+		if !isK {
+			return 0, nil, false
+		}
+		from, haveInit = k, true
+	}
+	iff, isIf := head.Instrs[len(head.Instrs)-1].(*ssa.If)
+	if !haveInit || !isIf {
+		return 0, nil, false
+	}
+	cmp, isCmp := iff.Cond.(*ssa.BinOp)
+	if !isCmp || cmp.Op != token.LSS {
+		return 0, nil, false
+	}
+	ln, isCall := core.Unwrap(cmp.X).(*ssa.Call)
+	if !isCall || !isBuiltin(ln, "len") || ln.Call.Args[0] != ssa.Value(list) {
+		return 0, nil, false
+	}
+	// the body (true edge) is where the append is; the counter's range is [from, from+bound)
+	if from != 0 {
+		return 0, nil, false
+	}
+	return from, cmp.Y, true
 }
 
 func isBuiltin(c *ssa.Call, name string) bool {
